@@ -4,7 +4,7 @@
 usage: run_benign.py [names...]        results -> seeded/benign/RESULTS.json
 An edit passes when no check exits 1 (an alarm on code where the property holds would be a false alarm);
 exit 2 (undecided) is recorded but is not an alarm."""
-import json, os, subprocess, sys, shutil
+import json, os, re, subprocess, sys, shutil
 from concurrent.futures import ThreadPoolExecutor
 V = os.path.dirname(os.path.dirname(os.path.abspath(__file__)))
 B = os.path.join(V, 'seeded', 'benign')
@@ -20,6 +20,18 @@ def sh(cmd, cwd=None):
     return p.returncode, p.stdout.decode('utf-8', 'replace')
 
 
+# --relevant: only the checks whose evidence lists a function of a touched file (plus C07, which spans every unit) and the
+# checks whose bounded stand-ins call the touched code through `generate`
+relevant_only = '--relevant' in sys.argv
+names = [n for n in names if not n.startswith('--')]
+file_props = {}
+if relevant_only:
+    import glob
+    for f in glob.glob(os.path.join(V, 'evidence', 'C*.json')):
+        j = json.load(open(f))
+        for fn in j['coverage']['functions']:
+            if fn.get('file'):
+                file_props.setdefault(fn['file'], set()).add(j['property_id'])
 alarms = 0
 for name in names:
     w = '/var/tmp/benign-%s-%d' % (name, os.getpid())
@@ -34,8 +46,16 @@ for name in names:
                 rc, out = sh('./check %s --repo %s' % (c, w), cwd=V)
                 lines = [l.replace(w, '<wt>')[:300] for l in out.splitlines() if l.startswith(('VIOLATION', 'UNDECIDED'))][:3]
                 return c, {'exit': rc, 'lines': lines}
+            todo = claimed
+            if relevant_only:
+                touched = re.findall(r'^\+\+\+ b/(\S+)', open(os.path.join(B, name + '.diff')).read(), re.M)
+                want = {'C07'}
+                for t in touched:
+                    want |= file_props.get(t, set(claimed))
+                todo = [c for c in claimed if c in want]
+                r['checks_run'] = todo
             with ThreadPoolExecutor(max_workers=3) as ex:
-                r['checks'] = dict(ex.map(one, claimed))
+                r['checks'] = dict(ex.map(one, todo))
             r['alarm'] = sorted(c for c, x in r['checks'].items() if x['exit'] == 1)
             r['undecided'] = sorted(c for c, x in r['checks'].items() if x['exit'] == 2)
             r['outcome'] = 'ALARM' if r['alarm'] else ('undecided' if r['undecided'] else 'pass')
